@@ -37,7 +37,7 @@ FLAVOURS = {
 
 # libc / libsystemd entry points replaced by the simulator (see sim/wrap.cpp)
 WRAPS = """clock_gettime nanosleep clock_nanosleep sigtimedwait
-kill setxattr getxattr fgetxattr syscall
+kill setxattr getxattr fgetxattr syscall pthread_kill
 open open64 openat openat64 fopen fopen64 close write read
 opendir fdopendir readdir readdir64 closedir faccessat fdopen
 sd_bus_open_system sd_bus_call_method sd_bus_message_read sd_bus_unref
